@@ -1,7 +1,9 @@
 (* C09 — the UNREPAIRED trees:
      part A  fx = fy = false: /repo at 8b83864, before build/fixes/C09_clamp.diff (now applied as
              95d346a, 4ffdf03, 82b2250);
-     part B  fx = true, fy = false: /repo at 25f0df4, before build/fixes/C09_reclamp_on_schema_update.diff.
+     part B  fx = true, fy = false: /repo at 25f0df4, before build/fixes/C09_reclamp_on_schema_update.diff
+             (now applied as 9fe3fd1, 6549ff0);
+     part C  fx = fy = true, fz = false: /repo at 025fad4, before 06780c0 (schema type change).
    The same model with the repairs switched off, and the refutation, by a concrete witness each,
    of the clauses of C09 that are false of it.  Every witness is in the corpus of the check
    (lib/props/c09.py) and was replayed on the real code through harness/c09
@@ -9,10 +11,10 @@
 From KG Require Import Prelude C09_Model C09_Spec C09_Proofs.
 Open Scope Z_scope.
 
-Definition ustep := step false false.
-Definition urun (st : static) (str0 : strategy) := run false false st (init (cfg st) str0).
+Definition ustep := step false false false.
+Definition urun (st : static) (str0 : strategy) := run false false false st (init (cfg st) str0).
 Definition uobserve := observe false.
-Definition utrace (st : static) (str0 : strategy) := trace false false st (init (cfg st) str0).
+Definition utrace (st : static) (str0 : strategy) := trace false false false st (init (cfg st) str0).
 
 Definition mi_5_20 (s : strategy) : static * strategy :=
   ({| cfg := {| ck := KMI; l1 := 5; l2 := 0; g1 := 20; g2 := 0 |}; md := MRemote; cs := CSOk |}, s).
@@ -137,12 +139,12 @@ Qed.
    lowers the global limit below it, the remote limiter keeps admitting the old quota until the next
    answer of the limiter server arrives (reconcile period 2 s, longer while the server is failing);
    a global-count wrapper that is unavailable keeps its fallback even across the next config sync. *)
-Definition nrun (st : static) (str0 : strategy) := run true false st (init (cfg st) str0).
+Definition nrun (st : static) (str0 : strategy) := run true false false st (init (cfg st) str0).
 Definition nenforced (p : static * strategy) (ops : list ev) : option lim :=
   o_lim (observe true (fst p) (nrun (fst p) (snd p) ops)).
 
 Definition window_statement : Prop :=
-  forall st str0 ops, valid_cfg (cfg st) -> Forall (ev_ok (ck (cfg st))) ops ->
+  forall st str0 ops, valid_cfg (cfg st) -> Forall ev_ok ops ->
     let s := nrun st str0 ops in bound_ok (scfg s) (observe true st s) = true.
 
 Definition mi_2_10 (s : strategy) : static * strategy :=
@@ -150,14 +152,14 @@ Definition mi_2_10 (s : strategy) : static * strategy :=
 
 (* 11. global-allocate: quota 8 of 10 in force, the global limit is lowered to 4: 8 > 4 are admitted *)
 Example C09_stale_quota_after_lowering :
-  nenforced (mi_2_10 SAlloc) [EHb true; qmi 8; ESchema 2 0 4 0] = Some (LMI 8)
-  /\ nenforced (mi_2_10 SAlloc) [EHb true; qmi 8; ESchema 2 0 4 0; qmi 8] = Some (LMI 4).   (* the next answer repairs it *)
+  nenforced (mi_2_10 SAlloc) [EHb true; qmi 8; ESchema KMI SAlloc 2 0 4 0] = Some (LMI 8)
+  /\ nenforced (mi_2_10 SAlloc) [EHb true; qmi 8; ESchema KMI SAlloc 2 0 4 0; qmi 8] = Some (LMI 4).   (* the next answer repairs it *)
 Proof. vm_compute. split; reflexivity. Qed.
 Theorem C09_schema_update_window_refuted : ~ window_statement.
 Proof.
-  intros H. specialize (H (fst (mi_2_10 SAlloc)) SAlloc [EHb true; qmi 8; ESchema 2 0 4 0]).
+  intros H. specialize (H (fst (mi_2_10 SAlloc)) SAlloc [EHb true; qmi 8; ESchema KMI SAlloc 2 0 4 0]).
   assert (V : valid_cfg (cfg (fst (mi_2_10 SAlloc)))) by (unfold valid_cfg, two31; simpl; lia).
-  assert (E : Forall (ev_ok KMI) [EHb true; qmi 8; ESchema 2 0 4 0])
+  assert (E : Forall ev_ok [EHb true; qmi 8; ESchema KMI SAlloc 2 0 4 0])
     by (repeat constructor; unfold valid_cfg, two31; simpl; lia).
   specialize (H V E). vm_compute in H. discriminate.
 Qed.
@@ -165,13 +167,13 @@ Qed.
 (* 12. global-count, server unavailable: the fallback 18 survives the lowering to 10 AND the following
        config syncs (Resize does not touch the limiter while unavailable) — until the server recovers *)
 Example C09_unavailable_fallback_after_lowering :
-  nenforced (mi_5_20 SCount) [EHb true; ECfgSync; ECount (RErr 18 0) 1; ESchema 2 0 10 0; ECfgSync; ECfgSync] = Some (LMI 18).
+  nenforced (mi_5_20 SCount) [EHb true; ECfgSync; ECount (RErr 18 0) 1; ESchema KMI SCount 2 0 10 0; ECfgSync; ECfgSync] = Some (LMI 18).
 Proof. vm_compute. reflexivity. Qed.
 Theorem C09_schema_update_unavailable_refuted : ~ window_statement.
 Proof.
-  intros H. specialize (H (fst (mi_5_20 SCount)) SCount [EHb true; ECfgSync; ECount (RErr 18 0) 1; ESchema 2 0 10 0; ECfgSync; ECfgSync]).
+  intros H. specialize (H (fst (mi_5_20 SCount)) SCount [EHb true; ECfgSync; ECount (RErr 18 0) 1; ESchema KMI SCount 2 0 10 0; ECfgSync; ECfgSync]).
   assert (V : valid_cfg (cfg (fst (mi_5_20 SCount)))) by (unfold valid_cfg, two31; simpl; lia).
-  assert (E : Forall (ev_ok KMI) [EHb true; ECfgSync; ECount (RErr 18 0) 1; ESchema 2 0 10 0; ECfgSync; ECfgSync])
+  assert (E : Forall ev_ok [EHb true; ECfgSync; ECount (RErr 18 0) 1; ESchema KMI SCount 2 0 10 0; ECfgSync; ECfgSync])
     by (repeat constructor; unfold valid_cfg, two31; simpl; lia).
   specialize (H V E). vm_compute in H. discriminate.
 Qed.
@@ -180,5 +182,44 @@ Qed.
 Example C09_stale_burst_after_lowering :
   o_lim (observe true {| cfg := {| ck := KTB; l1 := 1; l2 := 2; g1 := 1; g2 := 40 |}; md := MRemote; cs := CSOk |}
            (nrun {| cfg := {| ck := KTB; l1 := 1; l2 := 2; g1 := 1; g2 := 40 |}; md := MRemote; cs := CSOk |} SAlloc
-                 [EHb true; qtb 1 30; ESchema 1 2 1 10])) = Some (LTB 1 30).
+                 [EHb true; qtb 1 30; ESchema KTB SAlloc 1 2 1 10])) = Some (LTB 1 30).
 Proof. vm_compute. reflexivity. Qed.
+
+(* ================= part C: without the repair of the schema type change (before 06780c0) ================= *)
+(* localWrapper.Sync builds a new local limiter for the new type and returns: the remote wrapper keeps the
+   limiter granted for the OLD type, Load keeps returning it, and answers of the old type (which the
+   server goes on sending until it has seen the new schema) are rejected by sanitize, so nothing replaces it.
+   A global-count wrapper of the old type dereferences the nil member of the new local config on the next
+   error reply (also the counter's own timeout reply). *)
+Definition trun (st : static) (str0 : strategy) := run true true false st (init (cfg st) str0).
+
+Definition type_change_statement : Prop :=
+  forall st str0 ops, valid_cfg (cfg st) -> Forall ev_ok ops ->
+    let s := trun st str0 ops in
+    present s = true -> bound_ok (scfg s) (observe true st s) = true /\ crashed s = false.
+
+(* 14. max-in-flight quota 12 in force, the schema becomes a token bucket (global qps 3): a request still meets
+       the max-in-flight limiter of size 12, also after the server repeats its answer *)
+Example C09_old_type_limiter_survives :
+  o_lim (observe true (fst (mi_5_20 SAlloc))
+           (trun (fst (mi_5_20 SAlloc)) SAlloc [EHb true; qmi 12; ESchema KTB SAlloc 1 2 3 4; qmi 12; qmi 12]))
+  = Some (LMI 12).
+Proof. vm_compute. reflexivity. Qed.
+Theorem C09_type_change_refuted : ~ type_change_statement.
+Proof.
+  intros H. specialize (H (fst (mi_5_20 SAlloc)) SAlloc [EHb true; qmi 12; ESchema KTB SAlloc 1 2 3 4; qmi 12]).
+  assert (V : valid_cfg (cfg (fst (mi_5_20 SAlloc)))) by (unfold valid_cfg, two31; simpl; lia).
+  assert (E : Forall ev_ok [EHb true; qmi 12; ESchema KTB SAlloc 1 2 3 4; qmi 12])
+    by (repeat constructor; unfold valid_cfg, two31; simpl; lia).
+  specialize (H V E eq_refl). vm_compute in H. destruct H as [H _]. discriminate.
+Qed.
+
+(* 15. global count: type change, then an error reply -> nil dereference in SetLimit *)
+Theorem C09_type_change_crash_refuted : ~ type_change_statement.
+Proof.
+  intros H. specialize (H (fst (mi_5_20 SCount)) SCount [EHb true; ECfgSync; ESchema KTB SCount 1 2 3 4; ECount (RErr 9 0) 1]).
+  assert (V : valid_cfg (cfg (fst (mi_5_20 SCount)))) by (unfold valid_cfg, two31; simpl; lia).
+  assert (E : Forall ev_ok [EHb true; ECfgSync; ESchema KTB SCount 1 2 3 4; ECount (RErr 9 0) 1])
+    by (repeat constructor; unfold valid_cfg, two31; simpl; lia).
+  specialize (H V E eq_refl). vm_compute in H. destruct H as [_ H]. discriminate.
+Qed.
